@@ -5,6 +5,7 @@ mod decode;
 mod gen;
 mod out;
 mod rng;
+mod sections;
 
 fn main() {
     let args: Vec<String> = std::env::args().collect();
@@ -30,6 +31,7 @@ fn main() {
     out::quiet_panics();
     match suite {
         "arena" => arena::main(seed, &tier, only.as_deref()),
+        "sections" => sections::main(seed, &tier, only.as_deref()),
         "gentest" => {
             // generator self-test: how often are generated modules valid, what do they contain
             let mut rejected = 0;
